@@ -23,6 +23,10 @@ CHECKS = {
    "rapid-generated (original, overlay) source pairs merged by the real augmentation code and compared declaration by declaration, file by file and in order, with an independent implementation of the documented merge rules; the merged package must type-check; all natives packages present in the GOROOT are pushed through the real parseAndAugment as a fixed corpus",
    "the augmentation entry points are reached through verif-tagged hooks that repeat the call sequence of parseAndAugment; go/parser, go/printer, go/types are trusted",
    "property-based testing against an independently written reference implementation (rapid)"),
+ "C14": ("exploration",
+   "exhaustive in-program enumeration of all byte strings of length <=4 over a 19-byte UTF-8 boundary alphabet, rapid-drawn longer byte strings, every rune value for string(rune), and generated literals in plain and minified builds; every string operation of the property is digested and compared with the native run",
+   "trusts the native Go toolchain as reference; digests are 32-bit FNV (a mismatch is localised to a string and an operation by re-running verbosely)",
+   "exhaustive enumeration + property-based differential testing (rapid) with native Go as oracle"),
 }
 PENDING_REASON = "check not built yet in this session (work in progress; see DESIGN.md §8 for the order)"
 props=[json.loads(l)['id'] for l in open('/verif/properties.jsonl')]
